@@ -9,7 +9,11 @@ operations the audit hook does not see (os.stat, os.path.exists, and
 write/close of the temporary file through sshuttle.firewall.open).  The
 extracted Coq model (coq/Model/HostsFile.v) is run on the same cases; primitive
 traces, final directory contents (data, owner, mode, inode identity) and crash
-states are compared."""
+states are compared.  Section F starts from what an earlier crashed call left
+behind (crash at every primitive, or a planted temporary of arbitrary content)
+and then runs complete calls: each must install exactly (lines it found minus
+own marked lines) + own marked lines (oracle on the real code alone; the model
+runs the same histories through the driver command ST)."""
 import builtins
 import errno
 import os
@@ -22,14 +26,17 @@ RULE = ("contents x host maps x ports: hosts files built from comments, ordinary
         "lines (marker at the end or in the middle), other ports' markers (1230 vs 12300 vs 123000), near-miss markers, very long "
         "lines, UTF-8 text, control white space; endings none/LF/CRLF/CR/blank lines; empty and missing file; maps of 0..20 entries "
         "with 'ip name' lengths around the 30-column padding; pre-existing backup yes/no; os.link working/failing; owner/mode varied. "
-        "Histories of 2-4 instances; every crash point of a call (child process, os._exit at the k-th primitive); every merge of two "
+        "Histories of 2-4 instances; every crash point of a call (child process, os._exit at the k-th primitive); a call crashed at every "
+        "primitive or a pre-existing temporary of arbitrary content (shorter / as long / longer than the next version, other owner and mode), "
+        "THEN complete rewrites/restores by the same or another port, optionally after an edit by the administrator; every merge of two "
         "instances' shared-path primitives (threads gated at each primitive).  A case is non-trivial when the file or the map is "
         "non-empty; distinct by content hash")
 TRUSTED_BASE = [
     "modelled, not verified: CPython text-mode open().read() (UTF-8, universal newlines), str.rstrip/strip/split/find, '%-30s' and '%d' formatting, sorted() on (name, ip) tuples, buffered text file write/close",
     "modelled, not verified: POSIX open(O_TRUNC|O_CREAT), link, rename (atomic replacement of the directory entry), chown, chmod, stat; shutil.copyfile (SameFileError on hard-linked source/target)",
     "paths are an inductive type in the model (hosts / backup / per-port temporary): distinct ports give distinct temporary names",
-    "in-place writes through a second hard link to the temporary file are not modelled (the temporary is only ever created by open(..., 'w'))",
+    "in-place writes through a second hard link to the temporary file are not modelled (the temporary is only ever created by open(..., 'w')); "
+    "a pre-existing temporary (left by a crashed call, or by anybody) IS part of the start states of model, theorems and harness",
 ]
 ASSUMPTIONS = [
     "the hosts file decodes in the locale encoding (UTF-8 here) and its trailing white space / all-white-space test involves ASCII white space only; otherwise: UnicodeDecodeError before anything is written, or Unicode white space stripped (observed, documented in the evidence notes, outside the model)",
@@ -630,6 +637,257 @@ def run_crashes(ctx, fw, cases):
 
 
 # ----------------------------------------------------------------------------
+# F. what an earlier crashed call left behind: a call of one port stops at every primitive (child process), or a
+#    temporary of arbitrary content simply exists already; THEN complete rewrites / restores by the same or
+#    another port (optionally after the administrator has edited the hosts file).  Oracle on the implementation
+#    alone: every complete call installs spec_rewrite(hosts file it found) and leaves no temporary of its own,
+#    whatever scratch files were there.  The model runs the same histories (driver command ST).
+
+def op_token(op):
+    k = op[0]
+    if k == "T":
+        return "T/%d/%s/%d/%d/%d" % (op[1], hx(op[2]), op[3], op[4], op[5])
+    if k == "A":
+        return "A/%s" % hx(op[1])
+    if k == "C":
+        return "C/%d/%d/%s" % (op[1], op[2], hm_tokens(op[3]))
+    return "%s/%d/%s" % (k, op[1], hm_tokens(op[2]))
+
+
+def op_json(op):
+    return [x.hex() if isinstance(x, bytes) else x for x in op]
+
+
+def op_from_json(j):
+    j = list(j)
+    if j[0] == "T":
+        j[2] = bytes.fromhex(j[2])
+    elif j[0] == "A":
+        j[1] = bytes.fromhex(j[1])
+    return tuple(j)
+
+
+def crash_child(fw, w, port, hm, k):
+    """the real call in a child process that exits (no flush, no clean-up) just before its k-th primitive"""
+    sys.stdout.flush()
+    sys.stderr.flush()
+    pid = os.fork()
+    if pid == 0:
+        try:
+            def gate(rec, idx, name):
+                if idx >= k:
+                    os._exit(0)
+            with Patched(fw, w):
+                call_impl(fw, w, port, hm, gate=gate)
+        finally:
+            os._exit(0)
+    _, rc = os.waitpid(pid, 0)
+    return rc
+
+
+def apply_op(fw, w, op):
+    """perform one op of a stale-temporary history on the real code / the scratch directory; -> status"""
+    k = op[0]
+    if k == "T":
+        _, port, data, uid, gid, mode = op
+        with _real_open(w.tmp(port), "wb") as f:
+            f.write(data)
+        os.chown(w.tmp(port), uid, gid)
+        os.chmod(w.tmp(port), mode)
+        return "done"
+    if k == "A":
+        # the administrator saves an edited hosts file (write beside + rename, owner and mode kept)
+        try:
+            st = _real_stat(w.hosts)
+            meta = (st.st_uid, st.st_gid, st.st_mode & 0o7777)
+        except FileNotFoundError:
+            meta = (0, 0, 0o644)
+        side = os.path.join(w.dir, "keep", "edit")
+        with _real_open(side, "wb") as f:
+            f.write(op[1])
+        os.chown(side, meta[0], meta[1])
+        os.chmod(side, meta[2])
+        os.rename(side, w.hosts)
+        return "done"
+    if k == "C":
+        rc = crash_child(fw, w, op[2], op[3], op[1])
+        return "done" if rc == 0 else "child:%d" % rc
+    with Patched(fw, w):
+        st, _ = call_impl(fw, w, op[1], op[2], restore=(k == "S"))
+    return st
+
+
+def judge_stale_step(w, op, before, after, status, names_after):
+    """property oracle for one op, on the implementation's behaviour alone; -> None or text"""
+    k = op[0]
+    if status != "done":
+        return "call ended with %s" % status
+    if k in ("T", "A"):
+        return None
+    if k == "C":
+        port, hm = op[2], op[3]
+        if after not in (before, spec_rewrite(before, port, hm)):
+            return "a crash between two primitives leaves neither the previous nor the next complete hosts file"
+        return None
+    port, hm = op[1], op[2]
+    if k == "S" and not hm:
+        want = before
+    else:
+        want = spec_rewrite(before, port, {} if k == "S" else hm)
+    if after != want:
+        return "hosts file after a complete call is not (lines it found minus own marked lines) + own marked lines"
+    if not (k == "S" and not hm) and ("tmp%d" % port) in names_after:
+        return "a complete call left its temporary behind"
+    return None
+
+
+def run_stale_history(fw, content, bak, lnk, ops):
+    """-> (per-op records [(before, after, status, verdict)], final snapshot, world ids, fs tokens, sizes)"""
+    w = World(content, 0, 0, 0o644, bak, lnk)
+    recs = []
+    longer = None
+    try:
+        for op in ops:
+            before = w.hosts_bytes()
+            if op[0] == "R" and longer is None:
+                try:
+                    longer = os.path.getsize(w.tmp(op[1])) - len(spec_rewrite(before, op[1], op[2]))
+                except OSError:
+                    pass
+            st = apply_op(fw, w, op)
+            after = w.hosts_bytes()
+            names = set(w.snapshot())
+            recs.append((before, after, st, judge_stale_step(w, op, before, after, st, names)))
+        return recs, w.snapshot(), (w.ino_h0, w.ino_b0), w.fs_tokens(), longer
+    finally:
+        w.close()
+
+
+def stale_tails(rng, content, port, hm):
+    """what follows the crashed / planted state: [(ops...)], aiming at next versions shorter AND longer than the stale temporary"""
+    other = rng.choice([p for p in PORTS[:5] if p != port])
+    small = dict(list(hm.items())[:1]) or {"n": "10.9.9.9"}
+    small2 = {gen_name(rng, 3): gen_ip(rng)}
+    big = dict(hm)
+    for _ in range(3):
+        big[gen_name(rng)] = gen_ip(rng)
+    lines = spec_norm_lines(content)
+    fewer = ("\n".join(l for i, l in enumerate(lines) if i % 3 == 0 and marker(port) not in l) + "\n").encode("utf-8")
+    more = ((content or b"").rstrip(b"\r\n \t") + b"\n10.20.30.40 added.by.admin admin\n# note\n")
+    try:
+        more.decode("utf-8")
+    except UnicodeDecodeError:
+        more = b"10.20.30.40 added.by.admin admin\n"
+    tails = [
+        [("R", port, small2)],                                                    # next session, same port, fewer hosts: shorter
+        [("A", fewer), ("R", port, small2), ("S", port, small2)],                 # administrator deleted lines in between; session ends
+        [("R", port, big), ("R", port, small), ("S", port, small)],                # longer, then shorter
+        [("A", more), ("R", port, big)],                                          # longer
+        [("R", other, small2), ("R", port, small2), ("S", other, small2), ("S", port, small2)],   # another port first
+        [("S", port, hm or small), ("R", port, {})],                              # restore of the dead session's map; empty rewrite
+    ]
+    return tails
+
+
+def stale_junk(rng, content, port, hm_next):
+    """contents for a pre-existing temporary, sized around the next version (shorter / equal / longer) and holding what
+    must never get into the hosts file: a line fragment, deleted foreign lines, marked lines of this and another port"""
+    nxt = spec_rewrite(content, port, hm_next)
+    tail = ("8 printer.example.org printer\n10.0.0.9 decommissioned-a.example.org olda\n%-30s %s\n%-30s %s\n"
+            % ("192.168.1.1 alpha", marker(port), "192.168.1.2 beta", marker(1230 if port != 1230 else 12300))).encode()
+    out = [nxt + tail, nxt + b"X", nxt[:-1] if nxt else b"", nxt, b"", tail * rng.choice([1, 3, 40]),
+           b"Z" * (len(nxt) + rng.choice([1, 2, 8191, 8192, 8193, 70000])), nxt + b"no newline at the end",
+           (nxt + tail)[1:], b"\x00" * (len(nxt) + 5)]
+    return out
+
+
+def run_stale(ctx, fw, n_crash, n_plant):
+    rng = ctx.rng
+    hist = []           # (content, bak, lnk, ops, kind)
+    fixed = [(b"127.0.0.1 localhost\n10.0.0.8 printer.example.org printer\n10.0.0.9 decommissioned-a.example.org olda\n"
+              b"10.0.0.10 decommissioned-b.example.org oldb\n", 12300, {"alpha": "192.168.1.1", "beta": "192.168.1.2", "gamma": "192.168.1.3"}, None, True),
+             (b"127.0.0.1 localhost\n", 12300, {"a": "1.1.1.1"}, None, False),
+             (None, 1230, {"a": "1.1.1.1", "bb": "2.2.2.2"}, None, True),
+             (b"L" * 9000 + b"\nkeep\n", 12300, {"a": "1.1.1.1"}, b"bak\n", True)]
+    ccases = list(fixed)
+    for _ in range(n_crash):
+        port = rng.choice(PORTS[:5])
+        ccases.append((gen_content(rng, port), port, gen_map(rng, rng.choice([1, 2, 4, 8])), rng.choice([None, None, b"bak\n"]), rng.random() < 0.7))
+    for ci, (content, port, hm, bak, lnk) in enumerate(ccases):
+        # reference run: the primitives of the call that is going to crash
+        w = World(content, 0, 0, 0o644, bak, lnk)
+        with Patched(fw, w):
+            _, ev = call_impl(fw, w, port, hm)
+        w.close()
+        tails = stale_tails(rng, content, port, hm)
+        if ci >= len(fixed):
+            tails = rng.sample(tails, 2)
+        for k in range(len(ev) + 1):
+            for t in (tails if (ci < len(fixed) or k >= len(ev) - 4) else tails[:1]):
+                hist.append((content, bak, lnk, [("C", k, port, hm)] + t, "crash_then_complete"))
+        ctx.count("stale_crash_cases")
+    for _ in range(n_plant):
+        port = rng.choice(PORTS[:5])
+        content = gen_content(rng, port)
+        hm = gen_map(rng, rng.choice([0, 1, 2, 5]))
+        junk = stale_junk(rng, content, port, hm)
+        for data in (junk if _ < 4 else rng.sample(junk, 3)):
+            uid, gid, mode = rng.choice([(0, 0, 0o644), (0, 0, 0o600), (1000, 50, 0o400), (0, 0, 0o666)])
+            ops = [("T", port, data, uid, gid, mode)]
+            if rng.random() < 0.3:
+                q = rng.choice([p for p in PORTS[:5] if p != port])
+                ops.append(("T", q, rng.choice(junk), 0, 0, 0o644))
+            ops.append(("R", port, hm))
+            if rng.random() < 0.6:
+                ops += rng.choice(stale_tails(rng, content, port, hm))
+            hist.append((content, rng.choice([None, None, b"bak\n"]), rng.random() < 0.8, ops, "planted_then_complete"))
+    lines, impl = [], []
+    for content, bak, lnk, ops, kind in hist:
+        recs, snap, ids, fstok, longer = run_stale_history(fw, content, bak, lnk, ops)
+        impl.append((recs, snap, ids))
+        lines.append("ST %s %s" % (fstok, " ".join(op_token(o) for o in ops)))
+        ctx.count("stale_" + kind)
+        if longer is not None:
+            ctx.count("stale_temporary_%s_than_next_version" % ("longer" if longer > 0 else "shorter" if longer < 0 else "as_long"))
+    out = ctx.run_driver(lines)
+    for (content, bak, lnk, ops, kind), (recs, snap, (h0, b0)), ln, o in zip(hist, impl, lines, out):
+        ctx.case(("stale", content, bak, lnk, tuple(op_token(x) for x in ops)), nontrivial=True,
+                 sample={"kind": kind, "ops": [op_token(x)[:60] for x in ops][:5],
+                         "final_hosts": (recs[-1][1] or b"")[:160].decode("utf-8", "replace")}
+                 if (ops[0][0] == "C" and ops[0][1] >= 9 and len(ops) == 4) else None)
+        bad = [(i, r) for i, r in enumerate(recs) if r[3] is not None]
+        holds = not bad
+        # --- model vs implementation: hosts after every op, final directory
+        try:
+            mh, mfs = [x.strip() for x in o.split("|")]
+        except ValueError:
+            mh, mfs = o, ""
+        got = ";".join(hx(r[1]) if r[1] is not None else "MISSING" for r in recs)
+        ok = (got == mh)
+        if ok:
+            msnap = parse_model_fs(mfs)
+            rsnap = dict(snap)
+            crashed_port = ops[0][2] if ops[0][0] == "C" else None
+            ok = sorted(rsnap) == sorted(msnap)
+            tn = "tmp%s" % crashed_port
+            if ok and tn in rsnap and not any(x[0] in ("R", "S") and x[1] == crashed_port and not (x[0] == "S" and not x[2]) for x in ops[1:]):
+                # buffered writes: the real temporary of the crashed call holds a prefix of what the model has written
+                ok = msnap[tn][0].startswith(rsnap[tn][0])
+                rsnap[tn] = (b"",) + rsnap[tn][1:]
+                msnap[tn] = (b"",) + msnap[tn][1:]
+            ok = ok and canon_snapshot(rsnap, h0, b0) == canon_snapshot(msnap, 1 if content is not None else None, 0 if bak is not None else None)
+        if not ok:
+            ctx.disagree("history after a crashed call / over a pre-existing temporary", ln[:700],
+                         {"hosts": got[:400], "fs": canon_snapshot(snap, h0, b0)[:500]}, {"hosts": mh[:400], "fs": mfs[:500]}, holds)
+        if bad:
+            i, (before, after, st, why) = bad[0]
+            ctx.violation(("after a call that crashed between two primitives: " if ops[0][0] == "C" else "over a pre-existing temporary: ") + why,
+                          {"kind": "stale", "content_hex": None if content is None else hx(content), "bak_hex": None if bak is None else hx(bak),
+                           "link_ok": lnk, "ops": [op_json(x) for x in ops[:i + 1]], "failed_op": i,
+                           "found_hex": None if before is None else hx(before), "got_hex": None if after is None else hx(after)})
+
+
+# ----------------------------------------------------------------------------
 # D. interleavings of two instances: threads gated at every primitive
 
 SHARED = ("read", "stat", "exists", "link", "copy", "rename")
@@ -938,6 +1196,9 @@ def correspondence(ctx):
             ccases.append((gen_content(rng, port), port, gen_map(rng, rng.choice([0, 1, 2, 4])), rng.choice([None, b"bak\n"]), rng.random() < 0.7))
         run_crashes(ctx, fw, ccases)
 
+        # ---- F: crash of one call at every primitive / pre-existing temporaries, then complete calls
+        run_stale(ctx, fw, 6 if quick else 150, 40 if quick else 1500)
+
         # ---- D: interleavings
         f8_seen = []
         icases = [F8_WITNESS, F8_RESURRECT,
@@ -1051,6 +1312,12 @@ def replay(ctx, rp):
                     bad.append(port)
             print("final hosts:", data, "ports with wrong lines:", bad)
             return bool(bad) or base_lines(data, [case[1][0], case[2][0]]) != base_lines(case[0], [case[1][0], case[2][0]])
+        if r.get("kind") == "stale":
+            ops = [op_from_json(x) for x in r["ops"]]
+            recs, snap, ids, fstok, longer = run_stale_history(fw, b(r["content_hex"]), b(r.get("bak_hex")), r.get("link_ok", True), ops)
+            for op, (before, after, st, why) in zip(ops, recs):
+                print(op_token(op)[:100], "->", st, "hosts:", after, "" if why is None else "  <-- " + why)
+            return any(x[3] is not None for x in recs)
         if r.get("kind") == "crash":
             content = b(r["content_hex"])
             w = World(content, 0, 0, 0o644, b(r.get("bak_hex")), r.get("link_ok", True))
